@@ -34,7 +34,10 @@ type Session struct {
 func Start(srv *p9.Server) *Session {
 	s := &Session{Srv: srv, C2S: vconn.NewStream(), S2C: vconn.NewStream(), done: make(chan struct{})}
 	go func() {
-		s.HErr = srv.Handle(vconn.ReadCloser{S: s.C2S}, vconn.WriteCloser{S: s.S2C})
+		// one object for both directions, as with Server.Serve and a net.Conn:
+		// closing "the receiving side" closes the sending side too
+		conn := vconn.Duplex{In: s.C2S, Out: s.S2C}
+		s.HErr = srv.Handle(conn, conn)
 		close(s.done)
 	}()
 	return s
